@@ -147,16 +147,18 @@ def judge(spec, tier="quick"):
     label = f"{spec['kind']} {spec.get('cells') or spec.get('file')} after {log}"
     s_orig = snap.snapshot(m)
     copies = {}
-    res, err = core.call(lambda: pickle.loads(pickle.dumps(m)))
-    if err:
-        out.violate("pickle-raises", f"pickle round trip raised {err.short()}; {label}", etype=err.etype, frame=err.frame)
+    # exceptions of pickle / deepcopy are raised inside the standard library (no jaxley frame): they are
+    # violations here by definition ("any module reachable through the public API survives")
+    try:
+        copies["pickle"] = pickle.loads(pickle.dumps(m))
+    except Exception as e:  # noqa: BLE001
+        out.violate("pickle-raises", f"pickle round trip raised {type(e).__name__}: {str(e)[:200]}; {label}", etype=type(e).__name__)
         return out
-    copies["pickle"] = res
-    res, err = core.call(copy.deepcopy, m)
-    if err:
-        out.violate("deepcopy-raises", f"deepcopy raised {err.short()}; {label}", etype=err.etype, frame=err.frame)
+    try:
+        copies["deepcopy"] = copy.deepcopy(m)
+    except Exception as e:  # noqa: BLE001
+        out.violate("deepcopy-raises", f"deepcopy raised {type(e).__name__}: {str(e)[:200]}; {label}", etype=type(e).__name__)
         return out
-    copies["deepcopy"] = res
     # (1) round trip
     for name, c in copies.items():
         out.evals += 1
@@ -214,7 +216,11 @@ def judge(spec, tier="quick"):
             continue
     rec = ops.resolve(m, spec["extra"])
     if rec is not None and not (spec["kind"] in ("compartment", "branch") and rec["op"] == "set_ncomp"):
-        fresh = {"pickle": pickle.loads(pickle.dumps(m)), "deepcopy": copy.deepcopy(m)}
+        try:
+            fresh = {"pickle": pickle.loads(pickle.dumps(m)), "deepcopy": copy.deepcopy(m)}
+        except Exception as e:  # noqa: BLE001
+            out.violate("pickle-raises", f"copying after the first round trip raised {type(e).__name__}: {str(e)[:200]}; {label}", etype=type(e).__name__)
+            return out
         snaps = {k: snap.snapshot(v) for k, v in fresh.items()}
         _, err = core.call(ops.apply, m, rec)
         for name, c in fresh.items():
@@ -226,7 +232,11 @@ def judge(spec, tier="quick"):
     # (4) an SWC copy can still be re-discretised
     if spec["kind"] == "swc" and not kinds & {"record", "stimulate", "clamp", "make_trainable", "record_edge", "insert", "set"}:
         m2 = build(spec)
-        c2 = pickle.loads(pickle.dumps(m2))
+        try:
+            c2 = pickle.loads(pickle.dumps(m2))
+        except Exception as e:  # noqa: BLE001
+            out.violate("pickle-raises", f"pickling a freshly read SWC cell raised {type(e).__name__}: {str(e)[:200]}")
+            return out
         nb = int(m2.nodes["global_branch_index"].max()) + 1
         if nb >= 2:
             a, e1 = core.call(lambda: (m2.branch(1).set_ncomp(4), m2.nodes["radius"].to_numpy(float))[1])
